@@ -88,7 +88,13 @@ def handle (c : Case) : Verdict :=
                   if r.1 ≤ a && b ≤ r.2 then parseRaw raw else none
                 if badCuts.contains r.2 then got_i.take whole.length == whole else got_i == whole
               let f13 := n ≥ 2 && !badCuts.isEmpty && badCuts.all insideQuoted && !headerBad && perOk
-              let pre := if f13 then "known:F13-csv-quoted-newline-split " else ""
+              -- F13b: the same quote-blind `read_until` at its other call site, `header_size`
+              -- (csv.rs:298-305): the header record itself contains a quoted line terminator, so the
+              -- "header" that is skipped ends inside the quoted field and everything after it is parsed
+              -- from inside a quote (even with one replica). Nothing can be required of the rest.
+              let f13b := headerBad && insideQuoted (headerSize bytes true)
+              let pre := if f13 then "known:F13-csv-quoted-newline-split "
+                else if f13b then "known:F13b-csv-header-quoted-newline " else ""
               let msg := s!"records emitted across replicas ≠ records of the file; cuts inside records at offsets {badCuts}"
               let detail := if sz ≤ 200 then s!": got {showRecords got} expected {showRecords spec}" else ""
               some s!"{pre}{msg}{detail}"
